@@ -245,11 +245,12 @@ Commit(act, R, X, L, newph, send, pcm, aMiss) ==
                     must  |-> {l \in Lanes : X.rdr[l] /\ l \notin goneNew},
                     lost  |-> lostNew]
         \* the findings this very step exhibits (P fails strictly, in the finding's circumstances)
-        badL    == {l \in pe.must : ~StrictLane(s, pe, l)}
-        badA    == AggPresent /\ ~StrictAgg(s, pe)
-        kfA     == (\E l \in badL : l \in lostNew) \/ (badA /\ aMiss > 0)
-        kfB     == (\E l \in badL : pe.phNow[l] > 0 \/ pe.phPre[l] > 0)
-                   \/ (badA /\ (SumTo(pe.phNow, NL) > 0 \/ SumTo(pe.phPre, NL) > 0))
+        anyPh   == phNew # {} \/ ph # {}
+        kfA     == \/ \E l \in pe.must \cap lostNew : ~StrictLane(s, pe, l)
+                   \/ aMiss > 0 /\ AggPresent /\ ~StrictAgg(s, pe)
+        kfB     == /\ anyPh
+                   /\ \/ \E l \in pe.must : (pe.phNow[l] > 0 \/ pe.phPre[l] > 0) /\ ~StrictLane(s, pe, l)
+                      \/ AggPresent /\ ~StrictAgg(s, pe)
     IN
     /\ fwd' = R.fwd /\ bwd' = R.bwd /\ total' = R.total /\ lc' = R.lc /\ alc' = R.alc
     /\ rdr' = X.rdr /\ lanes' = X.lanes /\ att' = X.att /\ closed' = X.closed /\ stopped' = X.stopped
